@@ -74,7 +74,7 @@ fn main() {
         }
         "c05" | "c06" => {
             let sh = shard::parse_shard(&args);
-            let only = arg(&args, "--only").or_else(|| if comp == "c06" { Some("batch-parked".to_string()) } else { None });
+            let only = arg(&args, "--only").or_else(|| if comp == "c06" { Some("batch-parked,group-commit".to_string()) } else { None });
             if sh.is_some() || replay.is_some() || std::env::var("VERIF_NOSHARD").is_ok() {
                 c05::run(&tier, seed, replay.as_deref(), sh, only.as_deref(), &drv, &format!("{corpus}/C05"))
             } else {
